@@ -321,8 +321,11 @@ class Run:
         g = self.mg[gid]
         old = g.cur.get(n)
         deps = []
+        deps_f = []
         if old is not None:
-            deps = [it for it, flat in self._inflight_flats(gid) if flat.depends_on(old)]
+            deps_f = [(it, flat) for it, flat in self._inflight_flats(gid) if flat.depends_on(old)]
+            deps = [it for it, _flat in deps_f]
+        anchor_was_old = old is not None and anchor is old
         new, old, degenerate = g.place_after(anchor, n)
         self.boxes += 1
         self.where[n] = gid
@@ -330,8 +333,19 @@ class Run:
         if old is not None:
             if degenerate and taint is None:
                 self.bump("degenerate_moves")
-                for it in deps:
-                    it.taint_by = self.cur_call  # the latest same-position move this iterator depends on
+                for it, flat in deps_f:
+                    if not anchor_was_old and not it.rec and flat.cur is old:
+                        # A flat iterator parked on the very node that is re-inserted behind ANOTHER live
+                        # node (its own predecessor): the statement is explicit here - "when the current
+                        # node is ... moved, iteration resumes with the node that followed it at its
+                        # original place" - and the place of the new incarnation relative to the cursor
+                        # does not enter into it.  Judged exactly (L2), not tainted.
+                        self.bump("degenerate_moves_of_cursor_node_judged_exactly")
+                        continue
+                    # the latest same-position move this iterator depends on, and its kind
+                    it.taint_by = (f"{self.cur_call}:{'self' if anchor_was_old else 'other'}-anchored:"
+                                   f"{'cursor-on-node' if flat.cur is old else 'via-tombstones'}:"
+                                   f"{'recursive' if it.rec else 'flat'}-{'bwd' if flat.rev else 'fwd'}")
                     if it.tainted is None:
                         it.tainted = "degenerate"
                         self.bump("tainted_iters_degenerate")
